@@ -140,12 +140,12 @@ struct Op {
 
 static bool class_isset(const struct ClassData *cd, unsigned char c)
 {
-	return cd->bitmap[c / 32] & (1 << (c % 32));
+	return cd->bitmap[c / 32] & (1U << (c % 32));
 }
 
 static void class_set(struct ClassData *cd, unsigned char c)
 {
-	cd->bitmap[c / 32] |= (1 << (c % 32));
+	cd->bitmap[c / 32] |= (1U << (c % 32));
 }
 
 static void class_negate(struct ClassData *cd)
@@ -1203,7 +1203,7 @@ int regexec(const regex_t *rx, const char *str, size_t nmatch, regmatch_t pmatch
 	ctx.flags = ctx.rxi->flags | eflags;
 
 	/* reset pmatch area */
-	if (!(ctx.flags & REG_NOSUB))
+	if (pmatch && !(ctx.flags & REG_NOSUB))
 		memset(pmatch, -1, nmatch * sizeof(regmatch_t));
 
 	/* decide pmatch area that will be used */
